@@ -319,6 +319,25 @@ def check_C10(ctx):
     ctx.extra['rule'] = rule + '; plus ' + (WIRE_RULE % 'C10All (the k-th call of every Source/Sink operation and constructor x error class, on every protocol entry point)') + '; non-trivial = the fault fired'
     vt.write_evidence(ctx, 'model_checking', ctx_rule(ctx), exhaustive=True)
 
+RUN_RULE = ('request-level scenarios enumerated by TLC from GenRun!%s, executed through traceroute.RunTraceroute (and the HTTP handler) over one shared '
+            'simulated wire under the virtual clock; each trace validated by the TLA+ observer; distinct by abstract label')
+
+def check_C15(ctx):
+    vt.tlc_design(ctx, 'Multi', cfg='Multi_q.cfg' if ctx.quick() else 'Multi.cfg', timeout=900,
+                  label='runTracerouteMulti: every failing subset x every completion order; all-or-error, exact counts, termination')
+    scen = vt.tlc_generate(ctx, 'GenRun', 'C15', 700 if ctx.quick() else 0)
+    wire_family(ctx, 'C15', scen, RUN_RULE % 'C15All (protocol x query counts x failing subsets x completion orders x public-IP on/off/failing)' +
+                '; non-trivial = at least one injected failure fired or more than one query ran',
+                nontrivial=lambda s, es: any(e['event'] == 'Fault' for e in es) or s['run']['queries'] + s['run']['e2e'] > 1)
+    vt.write_evidence(ctx, 'model_checking', ctx_rule(ctx), exhaustive=not ctx.quick())
+
+def check_C19(ctx):
+    vt.tlc_design(ctx, 'Params', label='parameter lattice: the code decision path equals the meaning the property assigns (reject / execute exactly)')
+    scen = vt.tlc_generate(ctx, 'GenRun', 'C19', 0)
+    wire_family(ctx, 'C19', scen, RUN_RULE % 'C19All (TTL bounds far beyond 0..255, ports around 0/1/65535/65536, protocol and method strings, target literal forms; library and HTTP API)' +
+                '; non-trivial = the parameter set is not the default one (all are)', nontrivial=lambda s, es: True)
+    vt.write_evidence(ctx, 'model_checking', ctx_rule(ctx), exhaustive=True)
+
 def check_C07(ctx):
     cfgs = ['EngineParallelMC.cfg', 'EngineParallelMC_faults.cfg']
     if not ctx.quick():
@@ -327,7 +346,7 @@ def check_C07(ctx):
     vt.write_evidence(ctx, 'model_checking', ctx_rule(ctx), exhaustive=True)
 
 CHECKS = {
-    'C01': check_C01, 'C02': check_C02, 'C03': check_C03, 'C04': check_C04, 'C05': check_C05, 'C06': check_C06, 'C07': check_C07, 'C08': check_C08, 'C09': check_C09, 'C10': check_C10,
+    'C01': check_C01, 'C02': check_C02, 'C03': check_C03, 'C04': check_C04, 'C05': check_C05, 'C06': check_C06, 'C07': check_C07, 'C08': check_C08, 'C09': check_C09, 'C10': check_C10, 'C15': check_C15, 'C19': check_C19,
 }
 
 def replay(ctx, path):
